@@ -34,3 +34,27 @@ func VerifHarness_C20_Whitespace() {
 	}
 	verifReach("compared")
 }
+
+// the same with Unicode white space (no-break space, ideographic space, em space) mixed in
+func VerifHarness_C20_WhitespaceUnicode() {
+	ws := []string{" ", "\u00a0", "\u3000", "\u2003", " \u00a0", "\u3000\t", "\u00a0 "}
+	pick := func(name string, allowEmpty bool) string {
+		if allowEmpty {
+			k := verifIntRange(name, 0, len(ws))
+			if k == len(ws) {
+				return ""
+			}
+			return ws[k]
+		}
+		return ws[verifIntRange(name, 0, len(ws)-1)]
+	}
+	w1, w2 := c20Word("w1", 1), c20Word("w2", 1)
+	padded := pick("lead", true) + w1 + pick("mid", false) + w2 + pick("trail", true)
+	a, ea := ValidateQuery(padded)
+	b, eb := ValidateQuery(w1 + " " + w2)
+	verifAssert(ea == nil && eb == nil, "C20: padded and plain spellings are both accepted")
+	if ea == nil && eb == nil {
+		verifAssert(a == b, "C20: leading, trailing and repeated whitespace do not change the query that is searched")
+	}
+	verifReach("compared")
+}
